@@ -12,7 +12,7 @@ import sys
 from concurrent.futures import ThreadPoolExecutor
 from pathlib import Path
 
-ROOT = Path("/verif")
+ROOT = Path(__file__).resolve().parent.parent
 SEEDED = ROOT / "seeded"
 
 
